@@ -1190,6 +1190,8 @@ void op_CLASSIC_IMPL(World& w, const Op& op)
 
 }   // namespace
 
+void run_mapping_op(World& w, const Op& op) { op_MAPPING(w, op); }   // for composite ops defined elsewhere
+
 void register_expr_ops(std::vector<OpInfo>& t)
 {
 #define R(NAME, GROUP) t.push_back({#NAME, &op_##NAME, GROUP})
